@@ -37,14 +37,14 @@ Init ==
   \/ fn = "reverse_bits"      /\ a \in [bits : UNION {[1..k -> {0, 1}] : k \in 1..8}]
   \/ fn = "rev_longs"         /\ a \in [b : {Iota(k) : k \in 0..12}]
   \/ fn = "change_endianness" /\ a \in [b : {Iota(k) : k \in 1..12}]
-  \/ fn = "swap_bytes"        /\ a \in [b : {Iota(2 * k) : k \in 0..6}]
+  \/ fn = "swap_bytes"        /\ a \in [b : {Iota(k) : k \in 0..13}]
   \/ fn = "bcd_version"       /\ a \in [parts : UNION {[1..k -> BcdParts] : k \in {3}} \cup {<<<<"1">>, <<"2">>>>, <<<<"1">>, <<"2">>, <<"3">>, <<"4">>>>, <<<<"1">>>>}]
   \/ fn \in {"blk_is_aligned", "blk_align", "blk_to_num"} /\ a \in [n : 0..(2 * MaxN)]
   \/ fn = "hex_string"        /\ a \in [s : HexMenu, size : 0..3]
 Next == UNCHANGED vars
 E == Expected(fn, a)
 \* ---- theorems over the case space
-Total == E.k \in {"ret", "err", "any"}
+Total == E.k \in {"ret", "err", "any", "noalt"}
 AlignContract == fn = "align" /\ a.a >= 1 => E.v >= a.n /\ E.v % a.a = 0 /\ E.v - a.n < a.a
 AlignBigContract == fn = "align_big" => /\ ModSmall(E.v, a.a) = 0                                  \* a multiple ...
                                         /\ \E d \in 0..(a.a - 1) : AddSmall(a.n, d) = E.v          \* ... in n .. n+a-1, hence the smallest
@@ -53,7 +53,7 @@ AlignBlockContract == fn = "align_block" /\ a.a >= 1 =>
       /\ Len(E.v) = Align(Len(a.d), a.a) /\ SubSeq(E.v, 1, Len(a.d)) = a.d           \* padding is only ever appended
       /\ (Len(a.d) % a.a = 0 => E.v = a.d)
 Involutions == /\ fn = "rev_longs" /\ E.k = "ret" => RevInLongs(E.v) = a.b
-               /\ fn = "swap_bytes" => SwapPairs(E.v) = a.b
+               /\ fn = "swap_bytes" => SwapPairsAny(E.v) = a.b /\ Len(E.v) = Len(a.b) /\ (E.k = "ret" <=> Len(a.b) % 2 = 0)
                /\ fn = "reverse_bits" => RevBits(E.v) = a.bits
                /\ fn = "change_endianness" /\ E.k = "ret" => Expected(fn, [b |-> E.v]).v = a.b
                /\ fn = "swap16" /\ E.k = "ret" => Expected(fn, [b |-> E.v]).v = a.b
